@@ -89,6 +89,14 @@ func (x *c18Exec) call(fr *c18Frame, call *ast.CallExpr) c18Val {
 		if len(call.Args) == 1 {
 			return x.findKey(fr, call, call.Args[0])
 		}
+	case c18KFuncDecl:
+		if fn, _ := x.info.Defs[fv.fdecl.Name].(*types.Func); fn != nil {
+			return x.invoke(fr, fv.fdecl, fn, call)
+		}
+	case c18KNil:
+		x.stop("panic", "`%s` calls a nil function value (no entry of the lookup table matches)", x.src(call))
+	case c18KUnknown:
+		return fv
 	}
 	return c18Unk("dynamic call `%s` is not understood", x.src(call))
 }
@@ -244,22 +252,55 @@ func c18Reachable(pk *packages.Package, funcs map[*types.Func]*ast.FuncDecl, roo
 	out := []*ast.FuncDecl{root}
 	for i := 0; i < len(out); i++ {
 		ast.Inspect(out[i].Body, func(n ast.Node) bool {
-			call, ok := n.(*ast.CallExpr)
-			if !ok {
-				return true
+			add := func(fn *types.Func) {
+				if fn == nil || c18IsFind(fn) {
+					return
+				}
+				if fd := funcs[fn]; fd != nil && !seen[fd] {
+					seen[fd] = true
+					out = append(out, fd)
+				}
 			}
-			fn := callee(pk.TypesInfo, call)
-			if fn == nil || c18IsFind(fn) {
-				return true
-			}
-			if fd := funcs[fn]; fd != nil && !seen[fd] {
-				seen[fd] = true
-				out = append(out, fd)
+			switch t := n.(type) {
+			case *ast.CallExpr:
+				add(callee(pk.TypesInfo, t))
+			case *ast.Ident:
+				// a function used as a value, or named in the literal of a package-level lookup table that is used
+				switch o := pk.TypesInfo.Uses[t].(type) {
+				case *types.Func:
+					if o.Type().(*types.Signature).Recv() == nil {
+						add(o)
+					}
+				case *types.Var:
+					_, isMap := o.Type().Underlying().(*types.Map)
+					_, isFunc := o.Type().Underlying().(*types.Signature)
+					if o.Parent() == pk.Types.Scope() && (isMap || isFunc) {
+						if init := c18VarInit(pk, o); init != nil {
+							ast.Inspect(init, func(m ast.Node) bool {
+								if id, ok := m.(*ast.Ident); ok {
+									if fn, ok := pk.TypesInfo.Uses[id].(*types.Func); ok && fn.Type().(*types.Signature).Recv() == nil {
+										add(fn)
+									}
+								}
+								return true
+							})
+						}
+					}
+				}
 			}
 			return true
 		})
 	}
 	return out
+}
+
+// c18IsLookupVar: a package-level map or function variable (a lookup table), as opposed to the rule table.
+func c18IsLookupVar(v *types.Var) bool {
+	switch v.Type().Underlying().(type) {
+	case *types.Map, *types.Signature:
+		return true
+	}
+	return false
 }
 
 // constStrings collects every constant string mentioned in the evaluated functions (scenario values).
@@ -270,6 +311,21 @@ func (x *c18Exec) constStrings() []string {
 			if e, ok := n.(ast.Expr); ok {
 				if v, ok := constString(x.info, e); ok {
 					m[v] = true
+				}
+			}
+			// the constants of a package-level lookup table the function consults
+			if id, ok := n.(*ast.Ident); ok {
+				if pv, ok := x.info.Uses[id].(*types.Var); ok && pv.Parent() == x.pk.Types.Scope() && c18IsLookupVar(pv) {
+					if init := c18VarInit(x.pk, pv); init != nil {
+						ast.Inspect(init, func(k ast.Node) bool {
+							if e, ok := k.(ast.Expr); ok {
+								if v, ok := constString(x.info, e); ok && len(v) < 64 {
+									m[v] = true
+								}
+							}
+							return true
+						})
+					}
 				}
 			}
 			return true
